@@ -182,7 +182,8 @@ pub fn rand_doc(r: &mut Rng, p: &DocProfile) -> Value {
         m.insert("blob".into(), rand_value(r, p, 3));
     }
     if r.chance(90) {
-        m.insert(format!("items{}", FLAT), rand_arr(r, p, &mut used, 1, 5));
+        let maxlen = if p.id_pool > 12 { 14 } else { 5 };
+        m.insert(format!("items{}", FLAT), rand_arr(r, p, &mut used, 1, maxlen));
     }
     if r.chance(50) {
         m.insert(format!("tags{}", FLAT), rand_arr(r, p, &mut used, 1, 3));
